@@ -115,3 +115,101 @@ def record(kind, prm, ws, xs, vs, cuts, twice, seed):
 def finding_key(tr, rej):
     ev = (rej["offending_event"] or {}).get("ev", "end")
     return "%s|%s|%s" % (tr["id"].split("/")[0], ev, ",".join(rej["failed_clauses"]) or "unmatched")
+
+
+# --------------------------------------------------------------------------
+# CognitiveDualQueryStrategy (force_full_budget=True) for CognitiveTrace.tla
+def _stub_max():
+    from skactiveml.base import SkactivemlClassifier
+
+    class StubClassifier(SkactivemlClassifier):
+        def __init__(self, classes=None, missing_label=np.nan, cost_matrix=None, random_state=None):
+            super().__init__(classes=classes, missing_label=missing_label, cost_matrix=cost_matrix,
+                             random_state=random_state)
+
+        def fit(self, X, y, sample_weight=None):
+            return self
+
+        def predict_proba(self, X):
+            p = np.asarray(X, dtype=float)[:, 1] / 16.0
+            return np.stack([1 - p, p], axis=1)
+
+    return StubClassifier(classes=[0, 1])
+
+
+def project_cog(obj, kind, prm, ref):
+    def ints(seq, inf_ok=False):
+        out = []
+        for v in seq:
+            f = float(np.asarray(v).ravel()[0])
+            if inf_ok and f == np.inf:
+                out.append(INF)
+            else:
+                out.append(int(f) if f == int(f) else -1)
+        return out
+
+    win = {"cw": ints(getattr(obj, "cognition_window_", [])), "md": ints(getattr(obj, "min_dist_", []), True),
+           "th": ints(getattr(obj, "theta_", [])), "tx": ints(getattr(obj, "t_x_", [])),
+           "t": int(getattr(obj, "t_", 0))}
+    mgr = bc.project(obj.budget_manager_ if hasattr(obj, "budget_manager_") else obj.budget_manager, kind, prm, ref)
+    return {"win": win, "mgr": mgr}
+
+
+def record_cognitive(kind, prm, cws, thr, xs, vs, cuts, twice, seed):
+    from skactiveml.stream import CognitiveDualQueryStrategy
+
+    b = float(Fraction(*prm["B"]))
+    ref = bc.RefStream(seed, 2 * len(xs) + 4, b, prm["v"]) if kind in bc.RNG_OBJ_KINDS else None
+    obj = CognitiveDualQueryStrategy(force_full_budget=True, dist_func=_dist_first, density_threshold=thr,
+                                     cognition_window_size=cws, budget_manager=bc.make(kind, prm, seed),
+                                     random_state=seed + 1)
+    clf = _stub_max()
+    P = {k: prm[k] for k in ("kind", "W", "B", "S", "Theta0", "K", "WTol", "Allow", "Stale")}
+    events = []
+    for cx, cv in zip(bc.chunks_of(xs, cuts), bc.chunks_of(vs, cuts)):
+        cand = np.array([[float(x), float(v)] for x, v in zip(cx, cv)])
+        u16 = [min(v, 16 - v) for v in cv]
+        us = [bc.util_rat(u) for u in u16]
+        expect = np.array([u / 16.0 for u in u16])
+        res = None
+        for _ in range(2 if twice else 1):
+            ev = {"ev": "Query", "xs": [int(x) for x in cx], "us": us}
+            try:
+                with warnings.catch_warnings():
+                    warnings.simplefilter("ignore")
+                    res, ut = obj.query(cand.copy(), clf=clf, return_utilities=True)
+                ua = np.asarray(ut, dtype=float)
+                ev["nutil"] = int(len(ua)) if (ua.shape == expect.shape and bool(np.all(ua == expect))) else -1
+                r = np.asarray(res)
+                if r.ndim != 1 or (r.size and r.dtype.kind not in "iu"):
+                    ev = {"ev": "QueryMalformed", "shape": list(r.shape)}
+                else:
+                    ev["res"] = [int(i) + 1 for i in r]
+                    ev["st"] = project_cog(obj, kind, prm, ref)
+            except Exception as ex:
+                ev = {"ev": "QueryRaised", "exc": "%s: %s" % (type(ex).__name__, str(ex)[:160])}
+            events.append(ev)
+            if ev["ev"] != "Query":
+                break
+        if events[-1]["ev"] != "Query":
+            break
+        ev = {"ev": "Update", "xs": [int(x) for x in cx], "us": us, "q": [int(i) + 1 for i in np.asarray(res)]}
+        try:
+            with warnings.catch_warnings():
+                warnings.simplefilter("ignore")
+                obj.update(cand.copy(), np.asarray(res, dtype=int))
+            ev["st"] = project_cog(obj, kind, prm, ref)
+        except Exception as ex:
+            ev = {"ev": "UpdateRaised", "exc": "%s: %s" % (type(ex).__name__, str(ex)[:160])}
+        events.append(ev)
+        if ev["ev"] != "Update":
+            break
+    return {"id": "CognitiveDualQueryStrategy(full):%s/cws%d/thr%d/W%d/B%d_%d/x%s/v%s/cuts%s/%s/seed%d" % (
+        kind, cws, thr, prm["W"], prm["B"][0], prm["B"][1], list(xs), list(vs), sorted(cuts),
+        "twice" if twice else "once", seed),
+        "P": P, "cws": cws, "thr": thr, "rnd": ref.rnd if (ref is not None and kind in bc.RND_KINDS) else [],
+        "events": events,
+        "concrete": {"strategy": "CognitiveDualQueryStrategy(force_full_budget=True)", "manager_kind": kind,
+                     "params": prm, "cognition_window_size": cws, "density_threshold": thr, "features": list(xs),
+                     "proba_sixteenths": list(vs), "cuts": sorted(cuts), "twice": bool(twice), "seed": seed,
+                     "how": "harness.drivers.density_common.record_cognitive(...)"}}
